@@ -443,3 +443,120 @@ pub proof fn lemma_ii_lcm_small(sl: int, sr: int)
     lemma_ii_lcm(sl, sr);
     assert(sl * sr < 0x1_0000_0000 * 0x1_0000_0000) by (nonlinear_arith) requires 0 < sl < 0x1_0000_0000, 0 < sr < 0x1_0000_0000;
 }
+
+/// a positive divisor of a positive number is not larger than it
+pub proof fn lemma_ii_divisor_le(s: int, d: int)
+    requires s > 0, d > 0, divides(s, d)
+    ensures s <= d,
+{
+    lemma_divides_witness(s, d);
+    lemma_div_pos(d, s);
+    assert(s <= d) by (nonlinear_arith) requires d == s * (d / s), d > 0, s > 0, d / s >= 0;
+}
+
+// ---- glue between the interval vocabulary and the number theory above ----
+
+/// members of a strided interval are congruent to the normalised start `start mod stride`
+pub proof fn lemma_ii_member_class(i: Interval, v: Bitvector)
+    requires i.stride != 0, i.gamma(v)
+    ensures divides(i.stride as int, v.s() - i.start.s() % (i.stride as int)),
+            0 <= i.start.s() % (i.stride as int) < i.stride,
+{
+    let m = i.stride as int;
+    lemma_ii_posmod(i.start.s(), m);
+    lemma_divides_add(m, v.s() - i.start.s(), i.start.s() - i.start.s() % m);
+}
+
+/// one side is a single value: the residue class of the other side is kept
+pub proof fn lemma_ii_one_sided(i: Interval)
+    requires i.stride != 0, i.start.wf(), i.start.w@ <= 64,
+    ensures ({
+        let m = i.stride as int;
+        let s = i.start.s();
+        &&& -m < ii_rem(s, m) < m && ii_rem(ii_rem(s, m) + m, m) == s % m && 0 <= s % m < m
+        &&& forall|v: Bitvector| i.gamma(v) ==> #[trigger] on_stride(i.stride, v.s() - s % m)
+    }),
+{
+    let m = i.stride as int;
+    lemma_ii_rust_divrem(i.start.s(), m);
+    lemma_ii_posmod(i.start.s(), m);
+    assert forall|v: Bitvector| i.gamma(v) implies #[trigger] on_stride(i.stride, v.s() - i.start.s() % m) by {
+        lemma_ii_member_class(i, v);
+    }
+}
+
+/// strides of intervals of at most 32 bit are below 2^32
+pub proof fn lemma_ii_stride_small(i: Interval)
+    requires i.inv(), i.stride != 0, i.w() <= 32
+    ensures i.stride < 0x1_0000_0000,
+{
+    let w = i.w();
+    lemma_p2_consts(); lemma_p2_mono(w, 32);
+    lemma_sval(w, i.start.u@); lemma_sval(w, i.end.u@);
+    lemma_ii_divisor_le(i.stride as int, i.end.s() - i.start.s());
+}
+
+/// the intermediate values of the CRT computation in the shape of the executable code
+pub open spec fn ii_crt_t1(sl: int, sr: int, br: int, g: int, li: int) -> int { ii_rem(ii_crt_p1(sl, sr, br, g, li), ii_lcm(sl, sr)) }
+pub open spec fn ii_crt_t2(sl: int, sr: int, bl: int, g: int, ri: int) -> int { ii_rem(ii_crt_p2(sl, sr, bl, g, ri), ii_lcm(sl, sr)) }
+
+/// everything compute_intersection_residue_class needs after the call of extended_gcd
+pub proof fn lemma_ii_residue_class(a: Interval, b: Interval, g: int, li: int, ri: int)
+    requires a.inv(), b.inv(), a.w() == b.w(), a.w() <= 64, a.stride != 0, b.stride != 0,
+        a.w() <= 32 || ii_lcm(a.stride as int, b.stride as int) <= u64::MAX,
+        g == spec_gcd(a.stride as nat, b.stride as nat), g == li * a.stride + ri * b.stride,
+        ii_bezout_bounds(a.stride as int, b.stride as int, g, li, ri),
+    ensures ({
+        let (sl, sr) = (a.stride as int, b.stride as int);
+        let (bl, br) = (a.start.s() % sl, b.start.s() % sr);
+        let l = ii_lcm(sl, sr);
+        let rc0 = ii_crt_rc0(sl, sr, bl, br, g, li, ri);
+        let rc = ii_crt_rc(sl, sr, bl, br, g, li, ri);
+        &&& 0 <= bl < sl && 0 <= br < sr && 0 < g
+        &&& -g < ii_rem(bl, g) < g && -g < ii_rem(br, g) < g
+        &&& ii_div(sl, g) * sr == l && 0 < l <= u64::MAX
+        &&& ii_rem(bl, g) != ii_rem(br, g) ==> (forall|v: Bitvector| !(a.gamma(v) && b.gamma(v)))
+        &&& ii_rem(bl, g) == ii_rem(br, g) ==> {
+            &&& -l <= li * sl <= l && -l <= ri * sr <= l
+            &&& -(i128::MAX as int) <= ii_crt_p1(sl, sr, br, g, li) <= i128::MAX
+            &&& -(i128::MAX as int) <= ii_crt_p2(sl, sr, bl, g, ri) <= i128::MAX
+            &&& -l < ii_crt_t1(sl, sr, br, g, li) < l && -l < ii_crt_t2(sl, sr, bl, g, ri) < l
+            &&& rc0 == ii_crt_t1(sl, sr, br, g, li) + ii_crt_t2(sl, sr, bl, g, ri) + ii_rem(bl, g)
+            &&& -l < ii_rem(rc0, l) < l
+            &&& 0 <= rc < l
+            &&& ii_rem(l, sl) == 0 && ii_rem(l, sr) == 0
+            &&& ii_rem(bl - rc, sl) == 0 && ii_rem(br - rc, sr) == 0
+            &&& forall|v: Bitvector| a.gamma(v) && b.gamma(v) ==> #[trigger] on_stride(l as u64, v.s() - rc)
+        }
+    }),
+{
+    let (sl, sr) = (a.stride as int, b.stride as int);
+    let (bl, br) = (a.start.s() % sl, b.start.s() % sr);
+    let l = ii_lcm(sl, sr);
+    lemma_ii_posmod(a.start.s(), sl); lemma_ii_posmod(b.start.s(), sr);
+    lemma_ii_lcm(sl, sr);
+    if a.w() <= 32 {
+        lemma_ii_stride_small(a); lemma_ii_stride_small(b);
+        lemma_ii_lcm_small(sl, sr);
+    }
+    lemma_ii_rust_divrem(bl, g); lemma_ii_rust_divrem(br, g);
+    lemma_ii_rust_divrem(sl, g);
+    if ii_rem(bl, g) != ii_rem(br, g) {
+        assert forall|v: Bitvector| !(a.gamma(v) && b.gamma(v)) by {
+            if a.gamma(v) && b.gamma(v) {
+                lemma_ii_member_class(a, v); lemma_ii_member_class(b, v);
+                lemma_ii_crt_none(sl, sr, bl, br, v.s());
+            }
+        }
+    } else {
+        lemma_ii_crt_no_overflow(sl, sr, bl, br, g, li, ri);
+        lemma_ii_crt(sl, sr, bl, br, g, li, ri);
+        let rc = ii_crt_rc(sl, sr, bl, br, g, li, ri);
+        lemma_ii_rust_divrem(ii_crt_p1(sl, sr, br, g, li), l);
+        lemma_ii_rust_divrem(ii_crt_p2(sl, sr, bl, g, ri), l);
+        assert forall|v: Bitvector| a.gamma(v) && b.gamma(v) implies #[trigger] on_stride(l as u64, v.s() - rc) by {
+            lemma_ii_member_class(a, v); lemma_ii_member_class(b, v);
+            lemma_ii_crt_member(sl, sr, li, ri, bl, br, rc, v.s());
+        }
+    }
+}
